@@ -66,8 +66,11 @@ def gen_cases(rng, tier):
             case['maxd'] = round(math.sqrt(float(d2[i][j])) * rng.choice([1.02, 1.1]), 6)
         cases.append(case)
     if tier != 'search':
-        for k in range(6 if tier == 'quick' else 40):
-            cases.append({'real': True, 'seed': rng.randrange(10**6), 'T': rng.choice([60, 120]), 'maxd': rng.choice([1.0, 3.0])})
+        for k in range(10 if tier == 'quick' else 60):
+            # site_scale: the site structure is given in a slightly different cell than the simulation (e.g. experimental vs relaxed cell);
+            # distances are those of the simulation cell, as everywhere else in the analysis
+            cases.append({'real': True, 'seed': rng.randrange(10**6), 'T': rng.choice([60, 120]), 'maxd': rng.choice([1.0, 3.0, 3.1, 3.1]),
+                          'site_scale': rng.choice([1.0, 1.04])})
     return cases
 
 
@@ -166,7 +169,8 @@ def _impl_real(case):
     site_frac = [[0.0, 0.0, 0.0], [0.5, 0.0, 0.0], [0.0, 0.5, 0.0], [0.5, 0.5, 0.0]]
     T, na = case['T'], 3
     traj = synth.make_traj(m, ['Li'] * na, synth.hopping_positions(r, T, na, site_frac))
-    sites = synth.make_sites(m, site_frac)
+    sc = case.get('site_scale', 1.0)
+    sites = synth.make_sites([[v * sc for v in row] for row in m], site_frac)
     tr = traj.transitions_between_sites(sites, 'Li', site_radius=1.0)
     try:
         j = Jumps(tr)
